@@ -67,6 +67,7 @@ const (
 type stats struct {
 	staleOnExisting, equalTSReplace, deleteMatched, deleteAtStoredTS, futureRejected, futureAccepted bool
 	hugeThreshold, legacyValue, starLiteral, projectionCompared, serverName                         bool
+	valueKinds                                                                                      map[string]bool // value kinds of the updates actually built
 	sharedPrefixMultiDelete, multiMixed, plainOverAtomic, atomicOverPlain, suppressedSeen            bool
 	resetWide, removeWide, connErrThenConnect, emptyNoti, acceptedSeen, collideSeen                  bool
 	ambiguous, latestChecked, metaDeleted, readd, elementEnc, keyed                                  bool
@@ -79,6 +80,10 @@ type stats struct {
 
 func (s *stats) labels() []string {
 	var l []string
+	for k := range s.valueKinds {
+		l = append(l, "value-kind:"+k)
+	}
+	sort.Strings(l)
 	add := func(b bool, n string) {
 		if b {
 			l = append(l, n)
@@ -636,6 +641,10 @@ func (w *world) build(name string, spec *Noti) *pb.Notification {
 				w.st.nearValue = true
 			}
 		}
+		if w.st.valueKinds == nil {
+			w.st.valueKinds = map[string]bool{}
+		}
+		w.st.valueKinds[u.Val.Kind] = true
 		upd := &pb.Update{Path: up, Val: val}
 		if val == nil && u.Val.Kind == "deprecated" {
 			upd = gn.MakeUpdate(up, u.Val) // the deprecated Update.value field
